@@ -74,19 +74,22 @@ impl<T> SharedFd<T> {
 
     /// Wait and take the inner owned fd.
     pub fn take(self) -> impl Future<Output = Option<T>> {
-        let inner = self.into_inner();
+        // Keep the reference inside a `SharedFd` whenever it is not being
+        // unwrapped: giving it up (returning `None`, dropping the future) must
+        // notify a waiting closer like any other drop does.
+        let inner = self;
 
         async move {
             #[cfg(compio_verif)]
             compio_log::verif::point(
                 "fd.take.swap",
-                Shared::as_ptr(&inner) as usize as u64,
-                Shared::strong_count(&inner) as u64,
+                Shared::as_ptr(&inner.0) as usize as u64,
+                Shared::strong_count(&inner.0) as u64,
             );
-            if !inner.waits.swap(true, Ordering::AcqRel) {
+            if !inner.0.waits.swap(true, Ordering::AcqRel) {
                 let mut inner = Some(inner);
                 poll_fn(move |cx| {
-                    let i = inner.take().unwrap();
+                    let i = inner.take().unwrap().into_inner();
                     #[cfg(compio_verif)]
                     compio_log::verif::point(
                         "fd.take.unwrap1",
@@ -115,7 +118,7 @@ impl<T> SharedFd<T> {
                     match Shared::try_unwrap(this) {
                         Ok(fd) => Poll::Ready(Some(fd.fd)),
                         Err(tt) => {
-                            inner = Some(tt);
+                            inner = Some(Self(tt));
                             Poll::Pending
                         }
                     }
@@ -125,8 +128,8 @@ impl<T> SharedFd<T> {
                 #[cfg(compio_verif)]
                 compio_log::verif::point(
                     "fd.take.none",
-                    Shared::as_ptr(&inner) as usize as u64,
-                    Shared::strong_count(&inner) as u64,
+                    Shared::as_ptr(&inner.0) as usize as u64,
+                    Shared::strong_count(&inner.0) as u64,
                 );
                 None
             }
